@@ -624,6 +624,22 @@ def monitors(sched, log, snap):
     for c, l in fired.items():
         if len(l) > 1:
             v.append(("queue.callback:fired-more-than-once", "%r: %r" % (c, l)))
+    # a refused call that has a callback (its own `callback=` or the sync AsyncResult) is told QUEUE_FULL
+    for c in full:
+        meth, args, kw = sched["progs"][c[0]][c[1]]
+        cb_given = kw.get("callback") == "CB"
+        is_sync = bool(kw.get("sync", meth != "m_r")) and not cb_given
+        if (cb_given or is_sync) and (None, 1) not in fired.get(c, []):
+            v.append(("queue.put:refused-call-not-told-queue-full", "%r refused (Queue.Full), callback got %r" % (c, fired.get(c))))
+    # a dequeued command whose dispatch failed locally is reported through its callback
+    for ev in log:
+        if ev[0] == "dropped" and ev[1] and ev[1][0] != "f":
+            c = tuple(ev[1])
+            meth, args, kw = sched["progs"][c[0]][c[1]]
+            cb_given = kw.get("callback") == "CB"
+            is_sync = bool(kw.get("sync", meth != "m_r")) and not cb_given
+            if (cb_given or is_sync) and not fired.get(c):
+                v.append(("queue.dispatch:refused-command-not-reported", "%r dropped by the dispatch, callback never fired" % (c,)))
     for c, outs in ret.items():
         if len(outs) != 1:
             v.append(("decorator.sync:returned-more-than-once", "%r" % (c,)))
@@ -652,7 +668,11 @@ def run(ctx):
 
     # ---- Part A
     cases = fq_cases(ctx, rng)
-    out = ctx.driver("queue", [json.dumps({"op": "fq", "max": m, "ops": ops}) for m, ops in cases])
+    try:
+        out = ctx.driver("queue", [json.dumps({"op": "fq", "max": m, "ops": ops}) for m, ops in cases])
+    except Exception as e:   # noqa  binary missing / being relinked: infrastructure, not a finding
+        res["inconclusive"] = "driver queue unavailable: " + repr(e)[:300]
+        return res
     cov["fq_ok"] = cov["fq_full"] = cov["fq_empty"] = cov["fq_got"] = 0
     for (m, ops), line in zip(cases, out):
         mj = json.loads(line)
@@ -693,7 +713,11 @@ def run(ctx):
         lines.append(json.dumps({"op": "sys", "max": sc["max"], "skip": True, "labels": labels,
                                  "progs": [[spec_json(fid, s) for s in p] for p in sc["progs"]]}))
         reals.append((sc, labels, oks, log, snap, err))
-    out = ctx.driver("queue", lines)
+    try:
+        out = ctx.driver("queue", lines)
+    except Exception as e:   # noqa
+        res["inconclusive"] = "driver queue unavailable: " + repr(e)[:300]
+        return res
     for (sc, labels, oks, log, snap, err), line in zip(reals, out):
         mj = json.loads(line)
         res["cases"] += 1
